@@ -14,16 +14,17 @@ keychain (norm := normDocker)
   norm <image hex>                       -> key=<hex|!>
   mc <r1>;<r2>;...                       -> ok <u> <s> | err                      (multiCredsFuncs)
      r = e | <user hex>:<secret hex>
+  mcb <r1>;<r2>;...                      -> ok <u> <s> | incomplete | err         (the same through the authorizer)
   rh <0|1 per mirror, or ->               -> <h<j>|-> per returned host, comma separated (RegistryHostsFromConfig)
   <auth> = nil | u=<hex>,p=<hex>,a=<hex>,s=<hex>,i=<hex>,r=<hex>
 
 fetcher
-  f.new <absent|retry|fail> <force 0|1> <v{0|1}h{0|1},...> <answers>  -> ok|err reqs=.. st=..
-  f.read <answers>      -> - reqs=.. st=..
-  f.check <answers>     -> ok|err reqs=.. st=..
-  f.refresh <answers>   -> ok|err reqs=.. st=..
+  f.new <absent|retry|fail> <force 0|1> <v{0|1}h{0|1},...> <answers>  -> ok|err reqs=..
+  f.read <answers>      -> - reqs=..
+  f.check <answers>     -> ok|err reqs=..
+  f.refresh <answers>   -> ok|err reqs=..
   <answers> = - | comma list of 200 206 3r<i> 3o 3- 401 403 400 neterr x
-  reqs = - | ;-list of <H|P|F>@<r<i>|o>/<h<j>|->     st = none | b<i>,u<r<i>|o>,c<h<j>|->,s<0|1>
+  reqs = - | ;-list of <H|P|F>@<r<i>|o>/<h<j>|->
 -/
 namespace SV.Driver.C18
 open SV.Driver SV.Creds
@@ -121,8 +122,10 @@ def showFSt : Option FState → String
   | none => "none"
   | some st => s!"b{st.host},u{showTarget st.url},c{showCarries st.hdr},s{if st.single then 1 else 0}"
 
-def fline (res : String) (log : List Req) (st : Option FState) (rest : List Ans) : String :=
-  let base := s!"{res} reqs={showReqs log} st={showFSt st}"
+/-- The fetcher state is NOT part of the compared line (it is internal to the implementation and
+shows in the requests of the following operations). -/
+def fline (res : String) (log : List Req) (_st : Option FState) (rest : List Ans) : String :=
+  let base := s!"{res} reqs={showReqs log}"
   if rest.isEmpty then base else s!"{base} leftover={rest.length}"
 
 def okErr (b : Bool) : String := if b then "ok" else "err"
@@ -175,6 +178,15 @@ def step (s : St) : List String → St × String
     | some rs =>
       let fs : List (String → Ref → Res) := rs.map fun r => fun _ _ => r
       (s, showRes (multiCreds fs "" ""))
+    | none => (s, "bad-op")
+  | ["mcb", rs] =>
+    -- multiCredsFuncs seen through docker's Basic-auth handler, which rejects an incomplete pair
+    match (if rs = "-" then some [] else (rs.splitOn ";").mapM parseMcRes?) with
+    | some rs =>
+      let fs : List (String → Ref → Res) := rs.map fun r => fun _ _ => r
+      match multiCreds fs "" "" with
+      | .err => (s, "err")
+      | .ok u p => if u ≠ [] ∧ p ≠ [] then (s, s!"ok {hex u} {hex p}") else (s, "incomplete")
     | none => (s, "bad-op")
   | ["rh", mirrors] =>
     match (if mirrors = "-" then some [] else (mirrors.toList.mapM fun c => parseBool? (String.ofList [c]))) with
